@@ -242,17 +242,27 @@ func checkC03(res *Result) {
 	if fn := p.MustFunc(res, "C03-R1", "sideEffectActor.Deliver"); fn != nil {
 		ff := computeFacts(fn)
 		prep := findCalls(E, fn, "sideEffectActor.prepare")
-		dtr := findCalls(E, fn, "sideEffectActor.deliverToRecipients")
+		dtr := handOverSites(E, fn)
 		if len(prep) == 1 && len(dtr) == 1 {
 			pc := prep[0].(*ssa.Call)
 			res.check(ff.has(dtr[0], extractOf(pc, 1), fNIL, "") && dominates(pc, dtr[0]), "C03-R1", fname(fn), p.pos(dtr[0]), "deliverToRecipients only after prepare succeeded", "facts: "+ff.describe(dtr[0]))
-			res.check(pc.Call.Args[3] == dtr[0].Common().Args[3] && isParamNamed(unwrap(pc.Call.Args[3]), "activity"), "C03-R1", fname(fn), p.pos(dtr[0]), "the activity that was stripped is the activity that is sent", "prepare and deliverToRecipients receive different values")
-			res.check(dtr[0].Common().Args[4] == ssa.Value(extractOf(pc, 0)), "C03-R1", fname(fn), p.pos(dtr[0]), "the recipients computed by prepare are the recipients used", "argument mismatch")
+			if callName(dtr[0]) == "sideEffectActor.deliverToRecipients" || len(dtr[0].Common().Args) >= 5 {
+				res.check(pc.Call.Args[3] == dtr[0].Common().Args[3] && isParamNamed(unwrap(pc.Call.Args[3]), "activity"), "C03-R1", fname(fn), p.pos(dtr[0]), "the activity that was stripped is the activity that is sent", "prepare and deliverToRecipients receive different values")
+				res.check(dtr[0].Common().Args[4] == ssa.Value(extractOf(pc, 0)), "C03-R1", fname(fn), p.pos(dtr[0]), "the recipients computed by prepare are the recipients used", "argument mismatch")
+			} else {
+				// the helper written out in Deliver: BatchDeliver(c, payload, recipients)
+				g := flowOf(fn)
+				a := dtr[0].Common().Args
+				okAct := isParamNamed(unwrap(pc.Call.Args[3]), "activity") && anyBackward(g, a[1], func(x ssa.Value) bool { return isCallNamed(x, "streams.Serialize") }) && anyBackward(g, a[1], func(x ssa.Value) bool { return isParamNamed(x, "activity") })
+				res.check(okAct, "C03-R1", fname(fn), p.pos(dtr[0]), "the activity that was stripped is the activity that is sent", "the payload is not the serialisation of the activity handed to prepare")
+				res.check(unwrap(a[2]) == ssa.Value(extractOf(pc, 0)), "C03-R1", fname(fn), p.pos(dtr[0]), "the recipients computed by prepare are the recipients used", "argument mismatch")
+			}
 		} else {
 			res.bad("C03-R1", fname(fn), p.pos(fn), "Deliver = prepare then deliverToRecipients, once each", fmt.Sprintf("prepare calls %d, deliverToRecipients calls %d", len(prep), len(dtr)))
 		}
 	}
-	if fn := p.MustFunc(res, "C03-R1", "sideEffectActor.deliverToRecipients"); fn != nil {
+	for _, cname := range optionalFuncs(p, []string{"sideEffectActor.deliverToRecipients"}) {
+		fn := p.Func(cname)
 		g := flowOf(fn)
 		for _, c := range findCalls(E, fn, "Transport.BatchDeliver") {
 			body := c.Common().Args[1]
@@ -392,7 +402,16 @@ func checkWhoMayDeliver(res *Result, p *Pub, E *Effects, rule string) {
 		for _, ci := range E.byFn[fn] {
 			if ci.Label == "Transport.BatchDeliver" || ci.Label == "Transport.Deliver" {
 				n++
-				res.check(fname(fn) == "sideEffectActor.deliverToRecipients", rule, fname(fn), p.pos(ci.Instr), ci.Label+" is called only from deliverToRecipients", "a payload reaches the transport from "+fname(fn)+" without passing the strip/serialise path")
+				okFn := fname(fn) == "sideEffectActor.deliverToRecipients" || fname(fn) == "sideEffectActor.Deliver" || fname(fn) == "sideEffectActor.InboxForwarding"
+				res.check(okFn, rule, fname(fn), p.pos(ci.Instr), ci.Label+" is called only on the two delivery paths (deliverToRecipients, or Deliver / InboxForwarding themselves)", "a payload reaches the transport from "+fname(fn)+" without passing the strip/serialise path")
+				if okFn {
+					// the payload is the serialisation of the function's activity parameter
+					g := flowOf(fn)
+					body := ci.Instr.Common().Args[1]
+					fromParam := anyBackward(g, body, func(x ssa.Value) bool { return isParamNamed(x, "activity") })
+					viaSerialize := anyBackward(g, body, func(x ssa.Value) bool { return isCallNamed(x, "streams.Serialize") })
+					res.check(fromParam && viaSerialize, rule, fname(fn), p.pos(ci.Instr), "the payload is the serialisation of the activity parameter", fmt.Sprintf("from parameter: %v; through streams.Serialize: %v", fromParam, viaSerialize))
+				}
 			}
 			for _, c := range ci.Callees {
 				if fname(c) == "sideEffectActor.deliverToRecipients" {
